@@ -38,6 +38,7 @@ func runC14(c *Ctx) {
 	renderStateMapsFresh(c, "C14.R7")
 	pooledBufferLifetime(c, "C14.R8")
 	gBufferOwnership(c, "C14.R9")
+	locksNeverCopied(c, "C14.R12", ".", "runtime")
 	bufioNotOverCallerWriter(c, "C14.R10")
 	guardedMemoryNotReusedInPlace(c, "C14.R11")
 	var scan []*packages.Package
